@@ -320,6 +320,8 @@ def verify_function(ctx, relpath, qual, canary=True, struct=None, label=None):
         fr.case_label = label
     report = dict(function=relpath + '::' + qual + (' [%s]' % label if label else ''), hash=mod.fhash(qual), paths=0, returns=0, raises=0,
                   pre_satisfiable=None, canary_refuted=None, out_of_reach=None)
+    if getattr(mod, 'dropped_lines', None) and '#slice:' in relpath:
+        report['slice_dropped_lines'] = list(mod.dropped_lines)
     # requires
     fr.entry = st.fork()
     fr.spec_only = True
@@ -332,6 +334,9 @@ def verify_function(ctx, relpath, qual, canary=True, struct=None, label=None):
     try:
         outs = eng.run(node.body, st, fr)
     except OutOfReach as e:
+        if os.environ.get('VF_TB'):
+            import traceback
+            traceback.print_exc()
         report['out_of_reach'] = str(e)
         del ctx.obligations[nob0:]
         ctx.fun_reports.append(report)
